@@ -27,6 +27,8 @@ pub enum Status {
     Ready,
     /// in `Condvar::wait` after step A: (cv, mutex, notified)
     InWait(u8, u8, bool),
+    /// in a `while !cond { wait }` op: the condition was read as false, the wait call is next
+    LoopDecided,
     /// the closure returned; thread-local destructors still to run
     Returned,
     Done,
@@ -260,8 +262,55 @@ impl St {
                     vjoin(&mut s.th[t].vc, &rel);
                     vjoin(&mut s.th[t].vc, &inbox);
                     s.th[t].status = Status::Ready;
-                    s.finish_op(p, t, Res::U, m);
-                    out.push((s, Some(Res::U)));
+                    if matches!(p.threads[t][s.th[t].pc].k, K::CvWaitUntil { .. }) {
+                        // back to the loop condition
+                        s.normalise(p);
+                        out.push((s, None));
+                    } else {
+                        s.finish_op(p, t, Res::U, m);
+                        out.push((s, Some(Res::U)));
+                    }
+                }
+                return out;
+            }
+            Status::LoopDecided => {
+                let mut s = self.clone();
+                match p.threads[t][th.pc].k {
+                    K::NWaitUntil { n, .. } => {
+                        if m.spurious && s.ncredit[n] {
+                            let mut s2 = s.clone();
+                            s2.ncredit[n] = false;
+                            s2.via_spurious = true;
+                            s2.th[t].status = Status::Ready;
+                            out.push((s2, None));
+                        }
+                        if s.nflag[n] {
+                            s.nflag[n] = false;
+                            let rel = s.nrel[n];
+                            vjoin(&mut s.th[t].vc, &rel);
+                            s.th[t].status = Status::Ready;
+                            out.push((s, None));
+                        }
+                    }
+                    K::ParkUntil { .. } => {
+                        if s.th[t].tok {
+                            s.th[t].tok = false;
+                            let inbox = s.th[t].inbox;
+                            vjoin(&mut s.th[t].vc, &inbox);
+                            s.th[t].status = Status::Ready;
+                            out.push((s, None));
+                        }
+                    }
+                    K::CvWaitUntil { cv, m: mx, .. } => {
+                        s.cvq[cv].push(t as u8);
+                        s.mowner[mx] = None;
+                        let vc = s.th[t].vc;
+                        vjoin(&mut s.mrel[mx], &vc);
+                        s.th[t].status = Status::InWait(cv as u8, mx as u8, false);
+                        s.th[t].inbox = [0; MAXT];
+                        out.push((s, None));
+                    }
+                    _ => unreachable!("LoopDecided outside a loop op"),
                 }
                 return out;
             }
@@ -487,6 +536,24 @@ impl St {
                 let vc = s.th[t].vc;
                 vjoin(&mut s.nrel[n], &vc);
                 fin!(s, Res::U)
+            }
+            // wait-in-a-loop idioms: reading the condition and calling wait are separate steps
+            // (`Status::LoopDecided` in between). The explorer (SC values) decides to wait only
+            // when the condition is false; the conformance acceptor (`any_waiter`) also when it
+            // holds, because the real loop may have read a stale value.
+            K::NWaitUntil { a, want, .. } | K::ParkUntil { a, want, .. } | K::CvWaitUntil { a, want, .. } => {
+                if let K::CvWaitUntil { m: mx, .. } = op.k {
+                    assert_eq!(s.mowner[mx], Some(t as u8), "ill-formed program: wait without the mutex");
+                }
+                let holds = s.atomics[a] == want;
+                if !holds || m.any_waiter {
+                    let mut s2 = s.clone();
+                    s2.th[t].status = Status::LoopDecided;
+                    out.push((s2, None));
+                }
+                if holds {
+                    fin!(s, Res::U)
+                }
             }
             K::Park => {
                 if s.th[t].tok {
